@@ -470,7 +470,8 @@ def _xyz2thetaphi(x, y, z):
     """
     returns theta, phi in radians relative to the SDSS node at ra=95 degrees
     """
-    phi = arcsin(z)
+    # arctan2 keeps full precision near the poles, unlike arcsin(z)
+    phi = arctan2(z, sqrt(x * x + y * y))
     theta = arctan2(y, x)
 
     return theta, phi
@@ -737,9 +738,9 @@ def eq2sdss(ra_in, dec_in, dtype="f8"):
     # generate clambda, ceta
     # do things in place to save memory
 
-    # clambda = -arcsin( x ) (not a copy clambda=x)
-    arcsin(x, x)
-    clambda = x
+    # clambda = -arcsin( x ), computed with arctan2 which keeps full
+    # precision near the survey poles
+    clambda = arctan2(x, sqrt(y * y + z * z))
     clambda *= -1
 
     arctan2(z, y, z)
@@ -799,7 +800,8 @@ def sdss2eq(clambda_in, ceta_in, dtype="f8"):
     z = sin(ceta + _sdsspar["etapole"]) * cos(clambda)
 
     ra = arctan2(y, x) + _sdsspar["node"]
-    dec = arcsin(z)
+    # arctan2 keeps full precision near the poles, unlike arcsin(z)
+    dec = arctan2(z, sqrt(x * x + y * y))
 
     ra *= R2D
     dec *= R2D
